@@ -41,13 +41,19 @@ def verdict(pid, repo_root, overrides):
     try:
         repo = Repo(repo_root, overrides=overrides)
         chk = Check(pid, repo, "quick")
-        mod.run(chk)
+        err = None
+        try:
+            mod.run(chk)
+        except AnalysisError as e:
+            err = str(e)[:200]
         known = load_known(pid)
         bad = [o for o in chk.obligations if not o["ok"] and o["key"] not in known]
-        if len(chk.obligations) < mod.FLOOR:
-            return "error", f"floor {mod.FLOOR} not met ({len(chk.obligations)})"
         if bad:
             return "violation", [o["key"] for o in bad][:6]
+        if err:
+            return "error", err
+        if len(chk.obligations) < mod.FLOOR:
+            return "error", f"floor {mod.FLOOR} not met ({len(chk.obligations)})"
         return "ok", None
     except AnalysisError as e:
         return "error", str(e)[:200]
